@@ -290,6 +290,10 @@ Touched(P) == Firsts(P) \cup Seconds(P)
 PairSets(n) == {P \in SUBSET {<<i, j>> \in (1..n) \X (1..n) : i # j} :
                   \/ Cardinality(P) = 1
                   \/ Cardinality(P) = 2 /\ (n <= 3 \/ Touched(P) \subseteq 1..3 \/ Cardinality(Touched(P)) = 4)}
+               \* a position "collapsed onto itself" designates nothing (Seconds \ Firsts is empty): alone, and beside a real pair
+               \cup {{<<i, i>>} : i \in 1..n}
+               \cup {{<<t[1], t[1]>>, <<t[2], t[3]>>} :
+                        t \in {u \in (1..n) \X (1..n) \X (1..n) : u[2] # u[3] /\ u[3] # u[1] /\ u[2] # u[1]}}
 Selections ==       \* per length n: the catalogue of selections, each with its designated set
   [n \in 1..4 |->
      [support |-> SetToSeq({[arg |-> I, zero |-> (1..n) \ I] : I \in (SUBSET (1..n)) \ {{}}}),
